@@ -150,7 +150,9 @@ func c15(c *an.Check) {
 	hashTypeSiblings(c)
 	// VerifyData: nil error only past Sum ok, equal length, bytes.Equal
 	vd := p.Func("hash", "Hash", "VerifyData")
-	isSum := func(s *an.State, v ssa.Value) bool { return an.ResultCallTo(s.Canon(v), an.R("hash", "HashType", "Sum")) != nil }
+	isSum := func(s *an.State, v ssa.Value) bool {
+		return an.ResultCallTo(s.Canon(v), an.R("hash", "HashType", "Sum")) != nil
+	}
 	isStored := func(s *an.State, v ssa.Value) bool { return getterOn(s, v, "hash", "Hash", "GetHash") }
 	c.Gate(an.GateSpec{Construct: "hash.Hash.VerifyData success-return", Fn: vd, Sink: successReturn, Reqs: []an.Req{
 		an.CallOK("HashType.Sum ok", an.R("hash", "HashType", "Sum")),
@@ -240,7 +242,7 @@ func c15(c *an.Check) {
 
 func init() {
 	register(&Def{ID: "C15", Run: c15,
-		Explain: "Decides on SSA: (SIBLING) for every declared HashType constant and three undeclared representatives, the per-value abstract evaluation of HashType.Validate / Sum / BuildHasher / GetHashLen agrees (accepted ⇒ supported with positive length; rejected ⇒ Sum errors) and SupportedHashTypes equals the accepted set; (R1) Hash.VerifyData succeeds only past Sum ok and bytes.Equal(computed, stored) over Sum(own type, data); Hash.Validate succeeds only past HashType.Validate ok and len(digest)==GetHashLen(own type); CompareHash returns true only when both are nil or types and digests are equal; hash.Sum pairs the digest with the type used; (MIRROR) MarshalString/ParseFromB58 are base58 over the protobuf encoding.",
-		NotCov:  "base58/protobuf round-trip and digest functions themselves (trusted); the 'succeeds whenever equal' direction is implied only structurally (no other rejecting branch is looked for).",
+		Explain:     "Decides on SSA: (SIBLING) for every declared HashType constant and three undeclared representatives, the per-value abstract evaluation of HashType.Validate / Sum / BuildHasher / GetHashLen agrees (accepted ⇒ supported with positive length; rejected ⇒ Sum errors) and SupportedHashTypes equals the accepted set; (R1) Hash.VerifyData succeeds only past Sum ok and bytes.Equal(computed, stored) over Sum(own type, data); Hash.Validate succeeds only past HashType.Validate ok and len(digest)==GetHashLen(own type); CompareHash returns true only when both are nil or types and digests are equal; hash.Sum pairs the digest with the type used; (MIRROR) MarshalString/ParseFromB58 are base58 over the protobuf encoding.",
+		NotCov:      "base58/protobuf round-trip and digest functions themselves (trusted); the 'succeeds whenever equal' direction is implied only structurally (no other rejecting branch is looked for).",
 		Assumptions: commonAssumptions})
 }
